@@ -303,7 +303,36 @@ def battery():
     rec(lambda: rollout({"a.b": 1, "a.c": 2, "d": 3}))
     rec(lambda: rollout({"a/b": 1, "a.b": 2}, separator="/"))
     rec(lambda: rollout({"a/b": 1, "a.b": 2}))
+    # operators and helpers on fresh operands of every dict flavour: no operand may look different
+    # afterwards (what it prints, what it accepts, what it iterates)
+    flavours = [lambda: s.dict, lambda: s.dict({}), lambda: s.dict({...: ...}), lambda: s.dict({"a": s.int}),
+                lambda: s.dict({d42.optional("a"): s.int, "b": s.str}), lambda: s.dict({"a": s.int, ...: ...}),
+                lambda: s.dict({...: ..., "a": s.int}), lambda: s.dict({1: s.none, d42.optional(None): s.bool})]
+
+    def look(x):
+        return (repr(x), [repr(k) for k in x], x == {}, x == {"a": 1}, x == {"a": 1, "zz": 2}, x == {"b": "q"})
+    pure = True
+    _CALLS[0] += 1
+    for mk_a in (flavours if _CALLS[0] % 25 == 1 else []):       # (every 25th battery: it is the slow part)
+        for mk_b in flavours:
+            a, b = mk_a(), mk_b()
+            before = (look(a), look(b))
+            for f in (lambda: a + b, lambda: a | b, lambda: make_required(a), lambda: make_required(a, ["a"]),
+                      lambda: make_required(a, []), lambda: d42.substitute(a, {"a": 1}), lambda: d42.fake(a),
+                      lambda: s.list([a, b]), lambda: s.any(a, b), lambda: s.alias("T", a), lambda: a["a"]):
+                try:
+                    f()
+                except Exception:
+                    pass
+            if (look(a), look(b)) != before:
+                pure = False
+    out.append("operands unchanged: %s" % pure)
+    PURE[0] = PURE[0] and pure
     return tuple(out)
+
+
+PURE = [True]
+_CALLS = [0]
 
 
 _BATTERY = []
@@ -311,8 +340,9 @@ _BATTERY = []
 
 def battery_repeats():
     """TRUE when the battery gives what it gave the last time it was taken in this process"""
+    PURE[0] = True
     now = battery()
-    same = (not _BATTERY) or _BATTERY[-1] == now
+    same = ((not _BATTERY) or _BATTERY[-1] == now) and PURE[0]
     del _BATTERY[:]
     _BATTERY.append(now)
     return same
